@@ -120,3 +120,34 @@ add("C06", "exploration",
     "fidelity judged only where the grid resolves the distribution (mixtures >= 1.5 bins by construction; shipped "
     "hard cases with circular spread >= 1.3 bins, i.e. cases 0-3)",
     "metamorphic (rotation/mirror) pair monitors + moment-recomputation oracle + finite-difference oracle", "4/C06")
+add("C08", "exploration",
+    "Wind seas, mixtures, swell and random spectra x winds x depths x parameter sets x ST4/ST6/Romero: every public "
+    "rate / bulk_rate / imbalance result is judged by postconditions on sign, support (zero-energy bins, upwind "
+    "bins), linearity at fixed roughness, bulk == sum(rate*df*dtheta) with the spectrum's own bin widths, imbalance "
+    "composition; batches are re-run point by point and shuffled; thorough repeats under NUMBA_NUM_THREADS 1/16 and "
+    "NUMBA_BOUNDSCHECK=1. Held-on-K-executions.",
+    "bins within 1e-9 of perpendicular not judged; points whose implicit roughness is NaN are evaluated with a supplied roughness",
+    "runtime postcondition monitors composed from public API + batch/shuffle/thread-count paired executions", "4/C08")
+add("C09", "exploration",
+    "Paired executions of the real code on a spectrum/wind and on its joint rotation by k bins (quick 3 random k, "
+    "thorough all k) and its mirror image, N in {16,24,36}: fields must be the rolled/mirrored originals, bulk rates, "
+    "roughness, stress magnitude and inverted U10 unchanged, stress/dissipation/inverted directions shifted or "
+    "negated modulo 360. Held-on-K-executions.",
+    "fields at 1e-9 of the field maximum with the original's roughness supplied to both members; solver-derived "
+    "scalars at 1e-6; angles at 1e-4 degrees",
+    "metamorphic (joint rotation / mirror) pair monitors on the real kernels", "4/C09")
+add("C10", "exploration",
+    "Charnock: every returned z0 (scalar/array/DataArray, NaNs, with/without viscous term) is inserted into the "
+    "implicit equation with the bound implied by the solver's own stopping rule, drag identity, monotonicity on "
+    "sorted sweeps. Janssen: for each wind sea x wind the stress-balance function is scanned independently through "
+    "the public stress() on 200 roughness values; where it is defined everywhere with exactly one sign change the "
+    "returned roughness must balance to 1e-4 relative; other cases are counted, not judged. Held-on-K-executions.",
+    "single-root precondition decided by the 200-point scan; default physical constants",
+    "runtime residual monitors (implicit-equation insertion) + independent scan of the balance function", "4/C10")
+add("C11", "exploration",
+    "For wind seas, mixtures and low swell x st4/st4, st4/st6 x with/without dE/dt x both entry points: the returned "
+    "U10 is judged by re-evaluating the balance through the public API at u10 and u10+-0.03 m/s, zero-dissipation "
+    "=> 0, direction identity, agreement of the two entry points, and an independent 2..40 m/s scan of the balance "
+    "for the non-degeneracy clause. One recorded known finding (first-guess-sensitive NaN). Held-on-K-executions.",
+    "root bracketed within +-0.03 m/s or |G| <= 0.03|G'|; smooth rate-of-change spectra (dE/dt proportional to E)",
+    "runtime residual monitor (balance re-evaluation) + independent scan oracle + entry-point differential", "4/C11")
